@@ -510,7 +510,7 @@ func (l *Ledger) UpdateBlockChainData(txid string, ptxid string, publickey strin
 	return nil
 }
 
-func (l *Ledger) parallelCheckTx(txs []*pb.Transaction, block *pb.InternalBlock) (map[string]bool, map[string][]byte) {
+func (l *Ledger) parallelCheckTx(txs []*pb.Transaction, block *pb.InternalBlock) (map[string]bool, map[string][]byte, error) {
 	parallelLevel := NumCPU
 	if len(txs) < parallelLevel {
 		parallelLevel = len(txs)
@@ -520,6 +520,7 @@ func (l *Ledger) parallelCheckTx(txs []*pb.Transaction, block *pb.InternalBlock)
 	wg := &sync.WaitGroup{}
 	txExist := map[string]bool{}
 	txData := map[string][]byte{}
+	var hasErr error
 	total := len(txs)
 	wg.Add(total)
 	for i := 0; i <= parallelLevel; i++ {
@@ -538,8 +539,12 @@ func (l *Ledger) parallelCheckTx(txs []*pb.Transaction, block *pb.InternalBlock)
 					mu.Unlock()
 				}
 				if !DisableTxDedup || !block.InTrunk {
-					hasTx, _ := l.confirmedTable.Has(tx.Txid)
+					hasTx, err := l.confirmedTable.Has(tx.Txid)
 					mu.Lock()
+					if err != nil && hasErr == nil {
+						// a read error is not "the ledger does not have this transaction"
+						hasErr = err
+					}
 					txExist[string(tx.Txid)] = hasTx
 					mu.Unlock()
 				}
@@ -552,7 +557,7 @@ func (l *Ledger) parallelCheckTx(txs []*pb.Transaction, block *pb.InternalBlock)
 	}
 	wg.Wait()
 	close(ch)
-	return txExist, txData
+	return txExist, txData, hasErr
 }
 
 // ConfirmBlock submit a block to ledger
@@ -662,7 +667,12 @@ func (l *Ledger) ConfirmBlock(block *pb.InternalBlock, isRoot bool) ConfirmStatu
 		l.xlog.Warn("update branch info fail", "updateBranchErr", updateBranchErr)
 		return confirmStatus
 	}
-	txExist, txData := l.parallelCheckTx(realTransactions, block)
+	txExist, txData, checkErr := l.parallelCheckTx(realTransactions, block)
+	if checkErr != nil {
+		confirmStatus.Succ = false
+		l.xlog.Warn("failed to look up the block's transactions in the confirmed table", "err", checkErr)
+		return confirmStatus
+	}
 	cbNum := 0
 	oldBlockCache := map[string]*pb.InternalBlock{}
 	for _, tx := range realTransactions {
